@@ -398,6 +398,30 @@ func (st *State) doReturn(f *Frame, x *ssa.Return) bool {
 		// top-level: postconditions
 		st.checkCtorInv(f, results, x)
 		c := f.contract
+		if c != nil && len(c.Preserves) > 0 {
+			env := st.specEnv(f, results, true)
+			for i, p := range c.Preserves {
+				func() {
+					defer func() {
+						if r := recover(); r != nil {
+							if se, ok := r.(specErr); ok {
+								st.res.Errors = append(st.res.Errors, "preserves: "+string(se))
+								return
+							}
+							panic(r)
+						}
+					}()
+					// the location is the one the expression denotes at ENTRY
+					oenv := *env
+					oenv.heap = env.old
+					addr, T := st.evalAddr(p, &oenv)
+					now := st.loadH(st.heap, addr, T)
+					was := st.loadH(st.oldHeap, addr, T)
+					src := p.String()
+					st.oblige("post", fmt.Sprintf("preserves:%d:%s", i+1, src), eq(now.Term, was.Term), "preserves "+src+"  [return at "+st.pos(x)+"]")
+				}()
+			}
+		}
 		if c != nil {
 			env := st.specEnv(f, results, true)
 			for i, en := range c.Ensures {
